@@ -443,6 +443,13 @@ func (r *Runner) ExecBlock(s Step) *BlockOutcome {
 	o.EndEv = ParseEvents(o.EndRes.Events)
 	o.PostEnd = w.Snapshot(w.Ctx)
 	r.slashQ = nil
+	if !o.EndRes.Failed() {
+		for _, mon := range r.Mons {
+			if bm, ok := mon.(BoundaryMon); ok && !r.Halt {
+				bm.AtBoundary(o)
+			}
+		}
+	}
 	if o.EndRes.Failed() {
 		// the chain is halted here: no next block
 		o.PostBeg = o.PostEnd
